@@ -347,3 +347,93 @@ width_at_offset = Contract(
     requires=lambda a: T.WCS(T.TEXT(T.FmtS.chunks(a.self))) >= 0,
     ensures=lambda a, r: [("post.prefix_width", r == T.WCS(T.pyslice_term(T.TEXT(T.FmtS.chunks(a.self)), z3.IntVal(0), a.n)))],
     callees={"wcswidth": "ext:formatstring.wcswidth"})
+
+
+# ---------------------------------------------------------------------------------------------
+# FmtStr.setslice_with_length / setitem (row primitive of FSArray)                        C04
+#   padded view of the result == padded old row with the region replaced by the padded value;
+#   error when the value is longer than the region and the row continues past it, or when the result
+#   would be longer than `length`.
+# ---------------------------------------------------------------------------------------------
+def _ssl_fs_len(a):
+    return length(cells(a.fs))
+
+
+def _ssl_ensures(a, r):
+    """Statement form: padded view of the result == padded old row with the region replaced by the padded value.
+    Proof form (`exact`): the same fact with the padding resolved by case analysis on the old row's length, which
+    needs no reasoning about slices of blank sequences.  At run time BOTH are evaluated on every enumerated case,
+    so a disagreement between the two forms shows up as a failure of one of them (refinement validated, not assumed)."""
+    P = cells(a.self)
+    F_ = cells(a.fs)
+    Lh, st_, en = a.length, a.startindex, a.endindex
+    p, f, w = length(P), length(F_), en - st_
+    exact = If(p > en, concat(pyslice(P, 0, st_), F_, S.blanks(w - f), pyslice(P, en, None)),
+               If(p >= st_, concat(pyslice(P, 0, st_), F_), concat(P, S.blanks(st_ - p), F_)))
+    # a value longer than the region that is nevertheless accepted (it ends inside the row's blank tail) is judged by
+    # the statement form only, i.e. by the bounded layer (known finding C04-long-row-into-blank-tail)
+    out = [("post.region.exact", Implies(f <= w, cells(r) == exact)), ("post.fits", length(cells(r)) <= Lh)]
+    if not S.is_sym(P):
+        PP = S.padto(P, Lh)
+        out.append(("post.region", S.padto(cells(r), Lh) == concat(pyslice(PP, 0, st_), S.padto(F_, w), pyslice(PP, en, None))))
+    return out
+
+
+setslice = Contract(
+    M + "FmtStr.setslice_with_length", "C04", ["self", "startindex", "endindex", "fs", "length"], kind="method",
+    shapes=[Shape(n, dict(self=FmtT(), startindex=_I(0), endindex=_I(0), fs=t, length=_I(0)))
+            for n, t in (("fmtstr", FmtT()), ("str", StrT(plain=True)))],
+    requires=lambda a: And(a.startindex <= a.endindex, length(cells(a.self)) <= a.length, a.endindex <= a.length),
+    raises={"AssertionError": lambda a: And(length(cells(a.self)) > a.endindex, _ssl_fs_len(a) > a.endindex - a.startindex),
+            "ValueError": lambda a: And(length(cells(a.self)) <= a.endindex, a.startindex + _ssl_fs_len(a) > a.length)},
+    ensures=_ssl_ensures, result=FmtT())
+
+
+
+# ---------------------------------------------------------------------------------------------
+# Equality and hashing                                                                    C19
+#   two FmtStrs are equal exactly when they produce the same terminal string; a FmtStr equals a plain
+#   str exactly when its terminal string is that str; hash is a function of the terminal string.
+# ---------------------------------------------------------------------------------------------
+from pyvc.calls import HASHSTR, HASHPAIR
+
+fs_str = Contract(M + "FmtStr.__str__", "C01", ["self"], kind="method", shapes=[],
+                  result=lambda a, st: Sym("str", STRFOLD(T.FmtS.chunks(a.self))),
+                  doc="callee form: concatenation of the runs' terminal strings; body verified under MemoInv in C13")
+
+
+def render(x):
+    """terminal string of a FmtStr / the str itself"""
+    if z3.is_expr(x):
+        return STRFOLD(T.FmtS.chunks(x)) if x.sort() == T.FmtS else x
+    return str(x)
+
+
+fmt_eq = Contract(
+    M + "FmtStr.__eq__", "C19", ["self", "other"], kind="method",
+    shapes=[Shape("fmtstr", dict(self=FmtT(), other=FmtT())), Shape("str", dict(self=FmtT(), other=StrT(plain=False))),
+            Shape("other", dict(self=FmtT(), other=OtherT()))],
+    ensures=lambda a, r: [("post.notimplemented", r is NotImplemented)] if _is_other(a.other) else
+                         [("post.eq_iff_same_terminal_string", r == (render(a.self) == render(a.other)))],
+    result=BoolT())
+
+fmt_hash = Contract(
+    M + "FmtStr.__hash__", "C19", ["self"], kind="method", shapes=[Shape("any", dict(self=FmtT()))],
+    ensures=lambda a, r: [("post.hash_of_terminal_string", r == (HASHSTR(render(a.self)) if z3.is_expr(a.self) else hash(str(a.self))))],
+    result=IntT())
+
+chunk_eq = Contract(
+    M + "Chunk.__eq__", "C19", ["self", "other"], kind="method",
+    shapes=[Shape("chunk", dict(self=ChunkT(), other=ChunkT())), Shape("other", dict(self=ChunkT(), other=OtherT()))],
+    ensures=lambda a, r: [("post.notimplemented", r is NotImplemented)] if not (z3.is_expr(a.other) or hasattr(a.other, "atts")) else
+                         [("post.eq_iff_same_text_and_atts",
+                           r == (And(T.ChunkS.s(a.self) == T.ChunkS.s(a.other), T.ChunkS.atts(a.self) == T.ChunkS.atts(a.other))
+                                 if z3.is_expr(a.self) else (a.self.s == a.other.s and dict(a.self.atts) == dict(a.other.atts))))],
+    result=BoolT())
+
+chunk_hash = Contract(
+    M + "Chunk.__hash__", "C19", ["self"], kind="method", shapes=[Shape("any", dict(self=ChunkT()))],
+    ensures=lambda a, r: [("post.hash_of_text_and_atts",
+                           r == (HASHPAIR(T.ChunkS.s(a.self), T.ChunkS.atts(a.self)) if z3.is_expr(a.self)
+                                 else hash((a.self.s, a.self.atts))))],
+    result=IntT())
